@@ -241,6 +241,9 @@ class C06(Monitor):
         # J: programs whose jumps need EXTENDED_ARG (re-encoding normalized data has
         # to grow them in the fix-point loop)
         jumps = [c for c in S.feat_cases(self.tier) if c["k"] == "jump" and c["n"] <= 200]
+        # tables whose last index needs three code units: re-encoding normalized data
+        # has to size operands at the 65535/65536 boundary itself
+        jumps += [c for c in S.feat_cases(self.tier) if c["k"] == "feat" and c["fam"] in (("names",) if self.tier == "quick" else ("names", "consts")) and c["n"] >= 65535]
         q = list(S.prog_Q()) + list(S.prog_P1())
         if self.tier == "quick":
             out = list(S.with_modes(S.prog_Pa()))
@@ -282,8 +285,9 @@ class C06(Monitor):
 
     # -- (i) the operation graph ------------------------------------------------------
     def graph(self, case, code, stats):
+        hh = 900.0 if (len(code.co_consts) > 5000 or len(code.co_names) > 5000 or len(code.co_code) > 20000) else H
         try:
-            with horizon(H):
+            with horizon(hh):
                 x0 = CodeData.from_code(code)
                 n0 = x0.normalize()
         except Exception as e:
@@ -299,7 +303,7 @@ class C06(Monitor):
             x, hist = nodes[k]
             # invariants on the node
             try:
-                with horizon(H):
+                with horizon(hh):
                     n = x.normalize()
                     nn = n.normalize()
             except HorizonHit:
@@ -323,7 +327,7 @@ class C06(Monitor):
                 continue
             for name, op in OPS:
                 try:
-                    with horizon(H):
+                    with horizon(hh):
                         y = op(x)
                 except HorizonHit:
                     stats.violation(dict(case, history=hist + [name]), "operation-no-termination", name)
